@@ -70,14 +70,14 @@ Theorem C08_refuted_always_skip :
   exists c, (1 <= bs c)%nat /\ holds c (run_model c) <> [].
 Proof.
   exists {| content := [97; 13; 98]%N; chunking := [2; 1]%nat; bs := 8; always_skip := true;
-            opts := []; lim := {| max_bs := 65464; max_tmo := 30; default_tmo := 2 |}; kind := KNoFileno |}.
+            opts := []; lim := {| max_bs := 65464; max_tmo := 30720; default_tmo := 2048 |}; kind := KNoFileno |}.
   split; [cbn; lia | vm_compute; discriminate].
 Qed.
 
 (* non-vacuity: a concrete non-trivial valid case *)
 Definition ex8 : case :=
   {| content := [97; 13; 98; 10; 13; 10]%N; chunking := [2; 1; 1]%nat; bs := 3; always_skip := false;
-     opts := [(lit "tsize", lit "0")]; lim := {| max_bs := 65464; max_tmo := 30; default_tmo := 2 |};
+     opts := [(lit "tsize", lit "0")]; lim := {| max_bs := 65464; max_tmo := 30720; default_tmo := 2048 |};
      kind := KBytesIO 6 0 |}.
 Example C08_nonvacuous :
   valid ex8 /\ run_model ex8 = ([[97; 13; 10]; [98; 13; 10]; [13; 10]]%N, false).
